@@ -1,6 +1,8 @@
 package main
 
 import (
+	"path/filepath"
+	"os"
 	"bytes"
 	"encoding/json"
 	"fmt"
@@ -234,7 +236,9 @@ func resumeScan(input string, max int) []scanCall {
 	var calls []scanCall
 	in := input
 	for i := 0; i < max; i++ {
-		op := &ScanOp{Op: "scan", Data: hb(in), Sched: []int{}, Final: "eof"}
+		// every other call: the last data arrives together with EOF (legal for an io.Reader,
+		// and what io.MultiReader forwards from its last reader)
+		op := &ScanOp{Op: "scan", Data: hb(in), Sched: []int{}, Final: "eof", WithData: (len(in)+i)%2 == 0}
 		if resumeSched != nil {
 			op.Sched = resumeSched(len(in))
 		}
@@ -579,6 +583,7 @@ func runC07(prop string, res *Result, pool *DrvPool, r *Rng) {
 
 // C10: truncation and read failure at every offset.
 func runC10(prop string, res *Result, pool *DrvPool, r *Rng) {
+	runC10Located(res, r.Fork())
 	res.Rule = "every byte offset of generated dumps and race reports (with junk before) as the cut point x {EOF, non-EOF error after the data, non-EOF error with the last data, an error with Temporary()==true}, and every other cut also with path guessing and source analysis on; compared with the uncut result of the implementation itself; non-trivial = the cut falls inside the dump; distinct by (stream, offset, kind)"
 	nd := countN(res.Tier, 14, 300)
 	for i := 0; i < nd; i++ {
@@ -703,6 +708,73 @@ func runC10(prop string, res *Result, pool *DrvPool, r *Rng) {
 		}
 		if i < 2 {
 			res.Sample(map[string]interface{}{"stream": clip(txt), "offsets": len(txt)})
+		}
+	}
+}
+
+// runC10Located: cuts and reader failures with path guessing on and paths that DO resolve on
+// this machine (frames in the local Go root): every goroutine read completely before the cut
+// must be identical to the uncut run's in every field, the resolved location included.
+func runC10Located(res *Result, r *Rng) {
+	files := []string{"fmt/print.go", "net/http/server.go", "runtime/proc.go", "sync/mutex.go", "os/file.go"}
+	var ok []string
+	for _, f := range files {
+		if st, err := os.Stat(filepath.Join(goroot, "src", f)); err == nil && !st.IsDir() {
+			ok = append(ok, f)
+		}
+	}
+	if len(ok) < 2 {
+		res.Extra["located-cuts"] = "standard library sources not found under " + goroot
+		return
+	}
+	opts := func() *stack.Opts {
+		return &stack.Opts{LocalGOROOT: goroot, LocalGOPATHs: []string{"/nonexistent/gp1"}, GuessPaths: true, AnalyzeSources: r.Bool(), NameArguments: true}
+	}
+	for round := 0; round < countN(res.Tier, 3, 40); round++ {
+		var sb strings.Builder
+		n := 3 + r.Intn(3)
+		for g := 1; g <= n; g++ {
+			f := ok[r.Intn(len(ok))]
+			pkg := strings.TrimSuffix(f[:strings.LastIndexByte(f, '/')], "/")
+			fmt.Fprintf(&sb, "goroutine %d [chan receive]:\n%s.F%d(0xc00001%d000, 0x%x)\n\t/remote/goroot/src/%s:%d +0x1b\nmain.main()\n\t/remote/app/main.go:%d +0x2\n\n", g*3, strings.ReplaceAll(pkg, "/", "/"), g, g, g, f, 10+g, g)
+		}
+		txt := sb.String()
+		full, _, _ := stack.ScanSnapshot(strings.NewReader(txt), io.Discard, opts())
+		if full == nil || len(full.Goroutines) != n || full.Goroutines[0].Stack.Calls[0].LocalSrcPath == "" {
+			res.Extra["located-cuts"] = "the uncut dump did not resolve its standard library frames"
+			return
+		}
+		ref := mGs(full.Goroutines)
+		step := 1
+		if res.Tier != "thorough" {
+			step = 3
+		}
+		for k := len(txt) / 3; k < len(txt); k += step {
+			for kind := 0; kind < 3; kind++ {
+				rd := &SchedReader{data: []byte(txt[:k]), final: io.EOF}
+				if kind > 0 {
+					rd.final = errOther{3}
+					rd.withData = kind == 2
+				}
+				var gs *stack.Snapshot
+				if p := catch(func() { gs, _, _ = stack.ScanSnapshot(rd, io.Discard, opts()) }); p != nil {
+					res.Violation(Finding{Stream: "located-cut", What: fmt.Sprintf("cut at offset %d (kind %d) with path guessing on: panicked: %v", k, kind, p), Op: map[string]interface{}{"input": hb(txt), "cut": k, "kind": kind}})
+					return
+				}
+				res.Count("located-cuts")
+				if gs == nil {
+					continue
+				}
+				got := mGs(gs.Goroutines)
+				for i := 0; i+1 < len(got) && i < len(ref); i++ {
+					a, b := got[i], ref[i]
+					// pointer pseudo-names aside
+					if jsonStr(eraseNames([]MG{a})) != jsonStr(eraseNames([]MG{b})) {
+						res.Violation(Finding{Stream: "located-cut", What: fmt.Sprintf("cut at offset %d (kind %d: 0 EOF, 1 reader failure, 2 failure with the last data), path guessing on: goroutine %d lay entirely before the cut but differs from the uncut run: %s", k, kind, i, firstDiff([]MG{a}, []MG{b})), Op: map[string]interface{}{"input": hb(txt), "cut": k, "kind": kind, "goroot": goroot}})
+						return
+					}
+				}
+			}
 		}
 	}
 }
